@@ -52,6 +52,11 @@ func runInteropCase(c ioCase, bin, tmp string) map[string]interface{} {
 	}
 	mkHost := func(launch string) *vp.HostCfg {
 		hc := &vp.HostCfg{LegacyVersion: 1, Legacy: &vp.SetCfg{Proto: "grpc", Tag: "1"}, Mux: cell.MuxReq, Launch: launch, TempDir: tmp, StartTimeoutMs: 8000}
+		if launch == "runner" {
+			// the custom runner is one under which the plugin sees the socket directory under another path:
+			// every address crossing over is translated, each direction with its own translation
+			hc.Translate = "symlink"
+		}
 		switch cell.Allowed {
 		case "netrpc", "grpc":
 			hc.Allowed = []string{cell.Allowed}
